@@ -34,6 +34,18 @@ class RegBench:
             if as_int != il:
                 chk.violation(f"require_user_verification={p2.require_uv} / require_user_presence={p2.require_up} give another outcome than the booleans ({label}): {as_int[:50]} instead of {il[:50]}",
                               f"policy-as-int reg {label.split('+')[0].split('/')[0]}", dict(rp, policy_as_int={"require_user_verification": p2.require_uv, "require_user_presence": p2.require_up}, outcome_as_int=as_int[:400]))
+        if not il.startswith("OK"):
+            import webauthn as _w9
+            for pname, pval in impl.new_parameter_values("verify_registration_response"):
+                kw9 = pol.kwargs()
+                kw9[pname] = pval
+                with impl.substituted(pol.substitute, pol.now):
+                    o9 = impl.outcome(lambda: _w9.verify_registration_response(credential=val, **kw9), impl.pr_verified_reg)
+                chk.evals += 1
+                if o9.startswith("OK"):
+                    chk.violation(f"with the new argument {pname}={pval!r} a response that is otherwise refused ({il[:40]}) is accepted ({label})", f"new-parameter reg {pname} {label.split('+')[0].split('/')[0]}",
+                                  dict(rp, new_argument={pname: repr(pval)}, outcome_with_it=o9[:300]))
+                    break
         eq = impl.equivalent_reg_calls(pol, reg)
         self._eq_n = getattr(self, "_eq_n", 0) + 1
         for j in ((self._eq_n * 2) % len(eq), (self._eq_n * 2 + 1) % len(eq)):
